@@ -73,6 +73,7 @@ class Lang:
     def __init__(self, strings, consts, units, static, const_fn):
         self.strings, self.consts, self.units, self.static, self.const_fn = strings, consts, units, static, const_fn
         self.tmp = 0
+        self.names = set(consts) | {"is", "s", "bufidx", "keep_reading"}       # names that may occur in a read_error message
 
     def fresh(self, base):
         self.tmp += 1
@@ -242,6 +243,14 @@ class Lang:
         first = next((t[1] for t in toks if t[0] == "str"), None)
         if first is None:
             raise OutOfGrammar("%s: read_error without a message" % X.what)
+        # the message expression is not translated, but every token of it is accounted for: a concatenation of literals and of
+        # conversions of declared names
+        for k_, v_ in toks[1:]:
+            if k_ == "str" or (k_ == "op" and v_ in ("+", "(", ")", ".", ",", "{", "}", "*")):        # `std::string{*ptr}`
+                continue
+            if k_ == "id" and (v_ in ("std::string", "std::to_string", "std::make_error_code", "bad", "fail", "eof", "message") or v_ in self.names):
+                continue
+            raise OutOfGrammar("%s: %r in the message of a read_error" % (X.what, v_))
         msg = self.strings[int(first[2:-1])]
         for key, ctor in ERRORS:
             if key in msg:
@@ -264,13 +273,18 @@ class Lang:
         is_ptr = ("op", "*") in ty
         if name in env.vars and not (self.const_fn and name in dict(MEMBERS)):
             raise OutOfGrammar("%s: redeclaration of %s" % (X.what, name))
+        self.names.add(name)
         if init is None:
             if tname == "F" and not is_ptr:
                 X.note("garbage")
                 return X.let(env, name, "V", "garbage", rest)
             raise OutOfGrammar("%s: declaration of %s without initialiser" % (X.what, name))
         if init and init[0] == ("id", "std::string_view"):
-            return rest(env)                                 # a view used in error messages only
+            # a view used in error messages only: exactly `std::string_view(bufbegin, bufend)`; its name may then occur in a throw
+            if toks_text(init).replace(" ", "") != "std::string_view(bufbegin,bufend)" or tname != "auto":
+                raise OutOfGrammar("%s: string view %r" % (X.what, toks_text(init)[:60]))
+            self.names.add(name)
+            return rest(env)
         if init and init[0][0] == "id" and init[0][1] in self.units:
             return self.unit_call(X, env, init, name, rest, ctx)
         e = X.ex(init, env)
@@ -296,6 +310,7 @@ class Lang:
         out = a[2][0][1]
         X.note("s"); X.note("fchars"); X.note(out)
         fr = self.fresh("fr")
+        self.names.update(names)
         e1 = env.declare(names[0], Var("P")).declare(names[1], Var("EC")).wrote(out)
         return ("let %s := fchars (cslice s %s %s) in\n    let %s := (Nat.add %s (fc_adv %s)) in\n    let %s := fc_ok %s in\n    let %s := fc_val %s %s in\n    %s"
                 % (fr, first, last, gname(names[0]), first, fr, gname(names[1]), fr, gname(out), fr, gname(out), rest(e1)))
@@ -497,6 +512,7 @@ def unit_member(state, name):
             env = env.declare(n, Var(t))
             sigtxt.append("(%s : %s)" % (n, Lang.GTYPE[t]))
     for pn, pty, byref in sig["params"]:
+        L.names.add(pn)
         env = env.declare(pn, Var(pty))
         sigtxt.append("(%s : %s)" % (gname(pn), Lang.GTYPE[pty]))
     throws = X.may_throw(ast, env)
@@ -696,7 +712,7 @@ def generate(repo):
 
 def write(repo=None, outfile=None, write_ref=False):
     repo = repo or os.environ.get("VERIF_REPO", "/repo")
-    outfile = outfile or os.path.join(VERIF, "coq", "gen", "CsvGen.v")
+    outfile = outfile or os.path.join(os.environ.get("VERIF_GEN_OUT") or os.path.join(VERIF, "coq", "gen"), "CsvGen.v")
     body, status = generate(repo)
     if write_ref:
         if status["out_of_grammar"]:
